@@ -316,8 +316,10 @@ func (P *Prog) panicSites(fn *ssa.Function) []panicSite {
 		case *ssa.Index:
 			out = append(out, panicSite{"index", in, x.X, "x[i]"})
 		case *ssa.Lookup:
-			if _, isMap := x.X.Type().Underlying().(*types.Map); !isMap {
+			if mt, isMap := x.X.Type().Underlying().(*types.Map); !isMap {
 				out = append(out, panicSite{"index", in, x.X, "s[i]"})
+			} else if types.IsInterface(mt.Key()) {
+				out = append(out, panicSite{"mapkey", in, x.Index, "m[k] with an interface-typed key"})
 			}
 		case *ssa.Slice:
 			if x.Low == nil && x.High == nil && x.Max == nil {
@@ -326,6 +328,9 @@ func (P *Prog) panicSites(fn *ssa.Function) []panicSite {
 			out = append(out, panicSite{"slice", in, x.X, "x[lo:hi]"})
 		case *ssa.MapUpdate:
 			out = append(out, panicSite{"mapupdate", in, x.Map, "m[k] = v"})
+			if mt, ok := x.Map.Type().Underlying().(*types.Map); ok && types.IsInterface(mt.Key()) {
+				out = append(out, panicSite{"mapkey", in, x.Key, "m[k] = v with an interface-typed key"})
+			}
 		case *ssa.BinOp:
 			if x.Op == token.QUO || x.Op == token.REM {
 				if b, ok := x.X.Type().Underlying().(*types.Basic); ok && b.Info()&types.IsInteger != 0 {
@@ -485,6 +490,26 @@ func checkC06(P *Prog, r *Result) {
 					r.bad("C06/panic-site", c, pos, "update of a map derived from input data that may be nil")
 				} else {
 					r.ok("C06/panic-site", c, pos, "map is library/schema-owned")
+				}
+			case "mapkey":
+				// hashing an interface panics when its dynamic type is not comparable (a slice, a map, a struct
+				// holding one): `seen[item] = struct{}{}` on values that came out of a JSON document
+				switch k := cvi(s.operand).(type) {
+				case *ssa.Const:
+					r.ok("C06/panic-site", c, pos, "constant key")
+				default:
+					kt := k.Type()
+					if !types.IsInterface(kt) && types.Comparable(kt) {
+						r.ok("C06/panic-site", c, pos, "the key is boxed from the comparable type "+typeStr(kt))
+					} else if tainted {
+						r.bad("C06/panic-site", c, pos, "a value derived from input data ["+via+"] is used as the key of a map with an interface-typed key: a JSON object or array in that position makes the runtime panic (hash of unhashable type)")
+					} else if c2, isCall := k.(*ssa.Call); isCall && callOf(c2).static != nil && isPkgFunc(callOf(c2).static, "reflect") && callOf(c2).static.Name() == "Interface" {
+						// a value read out of the destination by reflection (an element of the slice under test): in Parse it
+						// is whatever the input held at that position
+						r.bad("C06/panic-site", c, pos, "a value read with reflect's Interface() (an element or field of the value under test, i.e. of the parsed input) is used as the key of a map with an interface-typed key: an element holding a JSON object or array makes the runtime panic (hash of unhashable type)")
+					} else {
+						r.ok("C06/panic-site", c, pos, "the key is configuration, not input")
+					}
 				}
 			case "divide":
 				if _, isC := s.operand.(*ssa.Const); isC {
